@@ -51,6 +51,15 @@ CHECKS = {
     'C14': dict(tech='G2O.tla: ParseLine dispatch (vertex, registered custom types, odometry, landmark, parameters, else warn) folded over abstract files; TLC evaluates Parse(file); rendered text files loaded by every entry point and compared object by object (binding A)',
                 text='Abstract files mixing all tags, two registered custom edge types, duplicate parameter ids, blank / comment / junk / near-miss lines in any legal order are rendered with random exact spellings of every float64, extra and trailing spaces, LF or CRLF; the loaded graph must be Parse(file): objects in file order, numbers bitwise (wrap / normalisation only where the specification says), symmetric information expansion, offsets resolved through the registry, one warning per unrecognised non-blank line; Graph.from_g2o and the five deprecated loaders must agree.',
                 ref='4 C14', note='Tabs as separators and inf/nan literals are outside the quantifier. For blank lines no warning is demanded (the code skips them silently; both readings of the property accept that).'),
+    'C05': dict(tech='designed lattice optima: TLC (Assembly!GradOnly) certifies exactly that the proposed ground truth is a stationary point and what chi^2 is there; real optimizer runs from the calibrated neighbourhood are judged against that certified optimum (binding A), incl. histories with a released anchor',
+                text='Ground-truth graphs over the closed lattice groups (chains, loop closures, landmarks with rotated offsets, SPD information with cross terms) with (a) exact measurements and (b) pairs of parallel edges whose noise cancels; only designs for which TLC evaluates the gradient at the ground truth to exactly zero are used, with the exact chi2* it reports. Runs start within 0.3 / 0.15 rad of the optimum, tol in {1e-10,1e-6,1e-3}, max_iter 50: the report must equal calc_chi2() before/after, chi^2 must not increase, the optimality gap to chi2* must be <= 10 tol chi2, and noise-free runs must reproduce the ground truth to 1e-6.',
+                ref='4 C05', note='First-order optimality at a generic noisy optimum (not a lattice point) is not evaluated by the oracle (L2); designed optima stand in. No claim outside the calibrated neighbourhood; a run ending below chi2* is counted unjudged.'),
+    'C11': dict(tech='Apalache: wrap lemma for all integers; TLC -simulate on PoseChain (closed lattice groups, exact for any length) replayed after every action on real poses and on a conjugated copy; monitors for angle range and unit norm; normalize() against the exact result',
+                text='Apalache discharges range, congruence and idempotence of the angle wrap for every integer multiple of pi/180; the float function, the SE(2) constructor, inverse, composition, difference and update are compared with the lemma at and around every wrap boundary and at random angles up to 1e6 rad. TLC generates random chains of 400 (quick) / 10 000 (thorough) operations inside closed groups where every state is exact; the real poses must equal the exact state after every action, SE(2) angles stay in [-pi,pi], quaternion norms stay within 8 eps (n+1) also on a conjugated (rounding-exercising) copy and over 1..50 optimizer iterations; normalize() must give the exact unit quaternion with w >= 0.',
+                ref='4 C11', note='The rounding-drift bound on |q| is a monitor on observed executions along TLC-generated operation sequences (L3).'),
+    'C16': dict(tech='TLA+ dual-number derivatives (exact sqrt) of a family of custom error functions evaluated by TLC; BaseEdge numerical Jacobians compared with them (binding A); optimisation against analytic twins',
+                text='For unary prior, relative-pose, range and 3-vertex midpoint edges over all pose kinds the specification differentiates the error exactly; BaseEdge.calc_jacobians() (forward difference 1e-6 through boxplus) must agree within 2e-5*(1+scale) for translations up to 4e3 and leave every pose bitwise restored. Graphs whose odometry edges are replaced by numerically differentiated twins must reach the same optimum.',
+                ref='4 C16', note=L1 + ' SE(2) errors within 1e-3 of +-pi are excluded (the property excludes the wrap set). The same-optimum clause is decided on near-consistent fixtures.'),
 }
 NA_REASON = 'check not built yet in this round (planned, see DESIGN.md section 4)'
 
